@@ -169,8 +169,8 @@ Section Cycle.
 End Cycle.
 
 (* the machine returns what the property demands, outside the recorded guard *)
-Theorem machine_refines_spec : forall visit root, imm_backref [] root = false ->
-  remap visit (collect_defs root) root = spec_remap visit root.
+Theorem machine_refines_spec : forall visit rr root, imm_backref [] root = false ->
+  remap (lift visit) rr (collect_defs root) root = spec_remap visit root.
 Proof.
-  intros visit root Hb. rewrite machine_is_recursion. unfold spec_remap. apply srb_root_same. exact Hb.
+  intros visit rr root Hb. rewrite machine_is_recursion. unfold spec_remap. apply srb_root_same. exact Hb.
 Qed.
